@@ -11,6 +11,16 @@ import (
 	"verifharness/ur"
 )
 
+// DevStep is one deviation-tolerant configuration of the trace specification; Key names the
+// violations it explains ("" = classify the last rejection).
+type DevStep struct {
+	Config string
+	Key    string
+}
+
+// LeafElemKey is the known finding admitted by LeafElemErrAtList = TRUE (see GqlRef).
+const LeafElemKey = "scalar-list-null-element-error-at-list-path"
+
 // ExecMode selects what the executor conformance run varies.
 type ExecMode struct {
 	Faults         bool     // err / null / list / type outcomes
@@ -35,6 +45,7 @@ type ExecMode struct {
 	// when set, is a deviation-tolerant config under which rejected scenarios are
 	// validated again so that the rest of their trace is still checked.
 	Classify  func(Rejection) string
+	Devs      []DevStep
 	DevConfig string
 	// Corpus are extra hand-written scenarios (with Op trees, e.g. from CorpusScenario);
 	// those with a Sched/Order are run as given, the others also get derived plans.
@@ -489,24 +500,7 @@ func ExecConformance(c *Check, prop string, bins map[string]string, vs []Variant
 		if err != nil {
 			Infra("trace validation (%s): %v", v.ID(), err)
 		}
-		var again []*Scenario
-		for _, rj := range rej {
-			key := RejectKey(rj)
-			if m.Classify != nil {
-				key = m.Classify(rj)
-			}
-			c.Violate(key, rj.Describe(), rj.Scenario)
-			again = append(again, rj.Scenario)
-		}
-		if m.DevConfig != "" && len(again) > 0 {
-			rej2, err := ValidateBatch(c, m.Module, m.DevConfig, vSchemaRaw, again, m.Lines, Work(prop, "tlcdev-"+v.ID()))
-			if err != nil {
-				Infra("trace validation, deviation config (%s): %v", v.ID(), err)
-			}
-			for _, rj := range rej2 {
-				c.Violate("beyond-known-deviation:"+RejectKey(rj), rj.Describe(), rj.Scenario)
-			}
-		}
+		judgeRejections(c, prop, v.ID(), m, vSchemaRaw, rej)
 		if len(ok) > 0 {
 			s := ok[len(ok)/2]
 			for _, cand := range ok[len(ok)/2:] {
@@ -535,6 +529,64 @@ func ExecConformance(c *Check, prop string, bins map[string]string, vs []Variant
 					c.Violate("variant-divergence", fmt.Sprintf("scenario %s: response of %s differs from %s\n%s\nvs\n%s", id, v.ID(), refV, trunc(s, 600), trunc(ref, 600)), map[string]any{"id": id})
 				}
 			}
+		}
+	}
+}
+
+// judgeRejections names and records the traces the property-level configuration rejected.
+func judgeRejections(c *Check, prop, vid string, m ExecMode, vSchemaRaw []byte, rej []Rejection) {
+	// a rejected trace is re-validated under the deviation-tolerant configurations in
+	// order: the first one that accepts it NAMES the violation (a known finding's key, or
+	// the class of the last rejection); the verdict - rejected by the property - stands
+	steps := m.Devs
+	if len(steps) == 0 && m.DevConfig != "" {
+		steps = []DevStep{{Config: m.DevConfig}}
+	}
+	classify := func(rj Rejection) string {
+		if m.Classify != nil {
+			return m.Classify(rj)
+		}
+		return RejectKey(rj)
+	}
+	last := map[*Scenario]Rejection{}
+	var remaining []*Scenario
+	for _, rj := range rej {
+		last[rj.Scenario] = rj
+		remaining = append(remaining, rj.Scenario)
+	}
+	for si, st := range steps {
+		if len(remaining) == 0 {
+			break
+		}
+		rej2, err := ValidateBatch(c, m.Module, st.Config, vSchemaRaw, remaining, m.Lines, Work(prop, fmt.Sprintf("tlcdev%d-%s", si, vid)))
+		if err != nil {
+			Infra("trace validation, deviation config %s (%s): %v", st.Config, vid, err)
+		}
+		still := map[*Scenario]bool{}
+		for _, rj := range rej2 {
+			still[rj.Scenario] = true
+		}
+		var next []*Scenario
+		for _, sc := range remaining {
+			if still[sc] {
+				next = append(next, sc)
+				continue
+			}
+			key := st.Key
+			if key == "" {
+				key = classify(last[sc])
+			}
+			c.Violate(key, last[sc].Describe()+"\n  (accepted with the named deviation of "+st.Config+")", sc)
+		}
+		for _, rj := range rej2 {
+			last[rj.Scenario] = rj
+		}
+		remaining = next
+	}
+	for _, sc := range remaining {
+		c.Violate(classify(last[sc]), last[sc].Describe(), sc)
+		if len(steps) > 0 {
+			c.Violate("beyond-known-deviation:"+RejectKey(last[sc]), last[sc].Describe(), sc)
 		}
 	}
 }
@@ -578,13 +630,7 @@ func replayOne(c *Check, prop string, bins map[string]string, vs []Variant, sche
 		if err != nil {
 			Infra("replay validation: %v", err)
 		}
-		for _, rj := range rej {
-			key := RejectKey(rj)
-			if m.Classify != nil {
-				key = m.Classify(rj)
-			}
-			c.Violate(key, rj.Describe(), rj.Scenario)
-		}
+		judgeRejections(c, prop, "replay", m, schemaRaw, rej)
 	}
 }
 
